@@ -46,6 +46,12 @@ def block(stmts, name='block'):
                            body=list(stmts), decorator_list=[], lineno=getattr(stmts[0], 'lineno', 0), col_offset=0)
 
 
+def _lit(c, tr):
+    while isinstance(c, tuple) and c and c[0] == 'not':
+        c, tr = c[1], not tr
+    return ('T' if tr else 'F', c)
+
+
 def summary(fnode, name_map=None, call_alias=None, unroll=(0, 1, 2), ignore_calls=(), env=None, drop_doc=True, track_calls=(), strict_casts=False):
     paths = enumerate_paths(fnode, unroll=unroll)
     out = set()
@@ -66,7 +72,10 @@ def summary(fnode, name_map=None, call_alias=None, unroll=(0, 1, 2), ignore_call
         for e in p.events:
             if e[0] == 'cond':
                 tt = T.simp(b.t(e[1]))
-                lits.append(('T' if e[2] else 'F', tt))
+                truth = e[2]
+                while isinstance(tt, tuple) and tt and tt[0] == 'not':     # `if not c:` taken  ==  `if c:` not taken
+                    tt, truth = tt[1], not truth
+                lits.append(('T' if truth else 'F', tt))
             elif e[0] == 'iter':
                 loop = e[1]
                 if isinstance(loop, ast.For):
@@ -75,6 +84,8 @@ def summary(fnode, name_map=None, call_alias=None, unroll=(0, 1, 2), ignore_call
                     # loop variable: the k-th element of the iterable
                     if isinstance(loop.target, ast.Name):
                         b.env[loop.target.id] = ('elem', it, e[2])
+                    elif isinstance(loop.target, (ast.Tuple, ast.List)):
+                        b.assign(loop.target, ('elem', it, e[2]))     # for (a, b) in X: a, b are the components of the k-th element
             elif e[0] == 'loopdone':
                 lits.append(('done', e[1].lineno * 0))
             elif e[0] == 'except':
@@ -106,6 +117,12 @@ def summary(fnode, name_map=None, call_alias=None, unroll=(0, 1, 2), ignore_call
                         if id(st) in guarded:
                             effects.append(('probe', v))     # can raise into a handler: part of the behaviour
                         continue     # otherwise a bare expression statement has no effect
+                    # d.update({k: v}) with one literal pair is the item store d[k] = v
+                    if v[0] == 'call' and isinstance(v[1], tuple) and v[1][0] == 'attr' and v[1][2] == 'update' and len(v[2]) == 1 and not v[3] and \
+                            isinstance(v[2][0], tuple) and v[2][0][:1] == ('dict',) and len(v[2][0]) == 2 and v[2][0][1][0] is not None:
+                        k_, val_ = v[2][0][1]
+                        effects.append(('store', ('sub', v[1][1], k_), '=', val_))
+                        continue
                     effects.append(('do', v))
                 elif isinstance(st, (ast.Import, ast.ImportFrom, ast.Pass, ast.Global, ast.Nonlocal, ast.FunctionDef, ast.ClassDef)):
                     continue
@@ -117,12 +134,22 @@ def summary(fnode, name_map=None, call_alias=None, unroll=(0, 1, 2), ignore_call
                     effects.append(('stmt', unparse(st)))
         if outcome is None:
             outcome = ('return', ('const', None)) if p.exit in ('fall', 'return') else (p.exit,)
+        # a conditional expression in the returned value is a branch: `return a if c else b` == `if c: return a` / `return b`
+        if outcome[0] == 'return' and isinstance(outcome[1], tuple) and T.find_ifexp(outcome[1]) is not None:
+            try:
+                split = T.cases(outcome[1], limit=32)
+            except AnalysisError:
+                split = [((), outcome[1])]
+            for cl, leaf in split:
+                out.add((tuple(lits) + tuple(_lit(c, tr) for c, tr in cl), tuple(effects), ('return', leaf)))
+            continue
         out.add((tuple(lits), tuple(effects), outcome))
     return out
 
 
 def summary_of_source(src, **kw):
-    node = ast.parse(src).body[0]
+    from .normalize import normalize_tree
+    node = normalize_tree(ast.parse(src)).body[0]     # the same normal form as the analysed program
     return summary(node, **kw)
 
 
